@@ -30,7 +30,9 @@ RULE = ('k=2-3 (quick, exhaustive) / up to 5 (thorough) handlers on one event, '
         'victim died inside the dispatch while it had not yet received the '
         'event (still pending in the snapshot).'
         ' Rounds 11-13 added: the program queries the world before dropping;'
-        ' liveness of a dropped victim checked inside the running dispatch.')
+        ' liveness of a dropped victim checked inside the running dispatch.'
+        ' Round 14 added: a bare dispatcher cleared from a callback,'
+        ' handlers dropped afterwards.')
 ANCHORS = [
     'desper/events.py::EventDispatcher.add_handler',
     'desper/events.py::EventDispatcher._remove_weak_handler',
